@@ -57,11 +57,11 @@ func (g *c01Gen) lit() string {
 	return pick(g.r, []string{"", "_", "x", "ab ", "-.-", "\n", " z "})
 }
 
-const c01NSteps = 22
+const c01NSteps = 25
 const c01NSinks = 9
 
 var c01StepNames = []string{"let", "array-index", "hash-index", "userfn-identity", "gohelper-identity", "gohelper-typed", "concat-left", "concat-right",
-	"for-var", "if-block", "else-block", "helper-block", "contentFor-body", "contentOf-data", "partial-data", "partial-layout", "userfn-body", "userfn-param-body", "nested-array", "concat-with-trusted-right", "concat-with-trusted-left", "helper-with-HTML-parameter"}
+	"for-var", "if-block", "else-block", "helper-block", "contentFor-body", "contentOf-data", "partial-data", "partial-layout", "userfn-body", "userfn-param-body", "nested-array", "concat-with-trusted-right", "concat-with-trusted-left", "helper-with-HTML-parameter", "stored-into-[]template.HTML", "stored-into-map-of-template.HTML", "appended-to-[]template.HTML"}
 var c01SinkNames = []string{"out", "if-return", "array-literal", "for-return", "hash-index-out", "let-then-out", "typed-strings-slice", "ifaces-slice", "for-over-typed-slice"}
 
 func (g *c01Gen) choose(n int) int {
@@ -124,10 +124,10 @@ func (g *c01Gen) route(d int, expr string, v c01Val) (string, []c01Seg) {
 	if v.trusted && k == 21 {
 		k = 4
 	}
-	if v.trusted && (k == 6 || k == 7 || k == 5 || k >= 19) {
+	if v.trusted && (k == 6 || k == 7 || k == 5 || k >= 19 && k <= 21) {
 		k = 0 // concat / string-typed helper are string-only steps
 	}
-	if v.loose != "" && (k == 5 || k == 6 || k == 7 || k >= 19) {
+	if v.loose != "" && (k == 5 || k == 6 || k == 7 || k >= 19 && k <= 21) {
 		k = 0
 	}
 	g.labels = append(g.labels, "step:"+c01StepNames[k])
@@ -202,13 +202,30 @@ func (g *c01Gen) route(d int, expr string, v c01Val) (string, []c01Seg) {
 		return g.route(d-1, "("+expr+" + raw(\"<br>\"))", c01Val{s: v.s, loose: "<br>"})
 	case 20:
 		return g.route(d-1, "(\"\" + "+expr+" + trustedVar)", c01Val{s: v.s, loose: "<hr>"})
-	default:
+	case 21:
 		nv := v
 		nv.mayFail = true
 		if nv.loose == "" {
 			nv.loose = "\x00none\x00"
 		}
 		return g.route(d-1, "wantsHTML("+expr+")", nv)
+	default:
+		// containers whose element type is trusted HTML: a plain string may be refused
+		// there, but storing it must not turn it into trusted HTML
+		nv := v
+		nv.mayFail = true
+		if !nv.trusted && nv.loose == "" {
+			nv.loose = "\x00none\x00"
+		}
+		switch k {
+		case 22:
+			in, segs := g.route(d-1, "hsl[0]", nv)
+			return one("<% hsl[0] = "+expr+" %>", "", in, segs)
+		case 23:
+			in, segs := g.route(d-1, "hmp[\"k\"]", nv)
+			return one("<% hmp[\"k\"] = "+expr+" %>", "", in, segs)
+		}
+		return g.route(d-1, "(hsl + "+expr+")[1]", nv)
 	}
 }
 
@@ -297,6 +314,8 @@ func c01Ctx(partials map[string]string) *plush.Context {
 	ctx.Set("ident", func(x interface{}) interface{} { return x })
 	ctx.Set("idstr", func(s string) string { return s })
 	ctx.Set("trustedVar", template.HTML("<hr>"))
+	ctx.Set("hsl", []template.HTML{"<i>t</i>"})
+	ctx.Set("hmp", map[string]template.HTML{"j": "<i>t</i>"})
 	ctx.Set("wantsHTML", func(h template.HTML) template.HTML { return h })
 	ctx.Set("mkstrs", func(s string) []string { return []string{s, s} })
 	ctx.Set("mkhtmls", func(s interface{}) []interface{} { return []interface{}{s, s} })
